@@ -324,11 +324,19 @@ package raft
 // ---- C15: loading a section = the defaults, then the section applied on top of them (a setting the section does
 // not carry gets its default, not whatever the object held before) ----
 //@ ghost var defaultsN int
+// the defaults: this component's own, and - imposed over whatever hashicorp/raft's own defaults are - a Raft instance
+// that does NOT shut itself down when it is removed from the configuration (a removed peer notices its removal by
+// listing the peerset, which a shut-down Raft instance can no longer answer)
+//@ extern hraft.DefaultConfig()
+//@   ensures res != nil
 //@ func (cfg *Config) Default
-//@   opts trusted
+//@   property C15 C17
+//@   requires cfg != nil
 //@   counts defaultsN when true
-//@   ensures cfg.RaftConfig != nil
-//@   modifies heap(Config)
+//@   ensures err == nil && cfg.RaftConfig != nil
+//@   ensures [imposed-over-the-library-defaults] !cfg.RaftConfig.ShutdownOnRemove && cfg.RaftConfig.LocalID == "will_be_set_automatically"
+//@   ensures [own-defaults] cfg.DataFolder == "" && cfg.WaitForLeaderTimeout == DefaultWaitForLeaderTimeout && cfg.NetworkTimeout == DefaultNetworkTimeout && cfg.CommitRetries == DefaultCommitRetries && cfg.CommitRetryDelay == DefaultCommitRetryDelay && cfg.BackupsRotate == DefaultBackupsRotate && cfg.DatastoreNamespace == DefaultDatastoreNamespace && len(cfg.InitPeerset) == 0
+//@   modifies heap(Config), heap(hraft.Config)
 //@ func (cfg *Config) LoadJSON
 //@   property C15
 //@   requires cfg != nil
